@@ -3902,8 +3902,13 @@ def add_measures(part):
 
     """
 
+    # bar length in the unit of part.beat_map (musical beats when they are in use)
     timesigs = np.array(
-        [(ts.start.t, ts.beats) for ts in part.iter_all(TimeSignature)], dtype=int
+        [
+            (ts.start.t, ts.musical_beats if part._use_musical_beat else ts.beats)
+            for ts in part.iter_all(TimeSignature)
+        ],
+        dtype=int,
     )
 
     if len(timesigs) == 0:
